@@ -1269,6 +1269,12 @@ class DeflateBuffer:
             # decompressor is not brotli unless encoding is "br"
             if self.encoding == "deflate" and not self.decompressor.eof:  # type: ignore[union-attr]
                 raise ContentEncodingError("deflate")
+            # gzip / br / zstd: the body ends inside a member or frame. Delivering
+            # the decoded prefix with a clean EOF would hide the truncation.
+            if self.decompressor.mid_stream:
+                raise ContentEncodingError(
+                    "Can not decode content-encoding: %s (truncated)" % self.encoding
+                )
 
         self.out.feed_eof()
 
